@@ -4,6 +4,7 @@ from __future__ import annotations
 import fnmatch
 import glob
 import importlib
+import importlib.util
 import json
 import multiprocessing as mp
 import os
@@ -93,6 +94,17 @@ def _run_task(arg):
         return {"name": f"{pid}/{key}", "target": key, "status": "stale", "message": f"not found: {e}", "obligations": [], "paths": 0, "solver_time": 0.0, "wall": 0.0, "source_hash": None, "used_contracts": [], "inlined": [], "queries": 0, "property": pid}
     except Exception as e:  # noqa: BLE001
         return {"name": f"{pid}/{key}", "target": key, "status": "error", "message": f"{type(e).__name__}: {e}\n{traceback.format_exc()}", "obligations": [], "paths": 0, "solver_time": 0.0, "wall": 0.0, "source_hash": None, "used_contracts": [], "inlined": [], "queries": 0, "property": pid}
+
+
+def _run_bounded(pid, tier, seed, q):
+    """Child process: run bounded/<pid>.run and send plain data back."""
+    try:
+        bmod = importlib.import_module(f"bounded.{pid}")
+        r = bmod.run(tier=tier, seed=seed)
+        info = dict(getattr(bmod, "INFORMATIONAL", {}))
+        q.put(("ok", (json.loads(json.dumps(r, default=repr)), info)))
+    except BaseException as e:  # noqa: BLE001
+        q.put(("error", f"{type(e).__name__}: {e}\n{traceback.format_exc()}"))
 
 
 def run_deductive(pid, tier, known, jobs=None, only=None):
@@ -222,6 +234,18 @@ def check_property(pid, tier="quick", seed=0, manifest_level="proof", jobs=None,
     active_known = [k for k in known if "fixed" not in k]
     lines = []
     violations = []
+    # the bounded stand-in runs in its own process, concurrently with the deductive pool
+    bproc = bq = None
+    try:
+        importlib.util.find_spec(f"bounded.{pid}")
+        has_bounded = importlib.util.find_spec(f"bounded.{pid}") is not None
+    except ModuleNotFoundError:
+        has_bounded = False
+    if has_bounded and not only:
+        ctx = mp.get_context("fork")
+        bq = ctx.Queue()
+        bproc = ctx.Process(target=_run_bounded, args=(pid, tier, seed, bq))
+        bproc.start()
     results = run_deductive(pid, tier, active_known, jobs, only)
     load_contracts()
     n_obl = n_dis = 0
@@ -283,15 +307,18 @@ def check_property(pid, tier="quick", seed=0, manifest_level="proof", jobs=None,
                 lines.append(f"UNDECIDED obligation={name} ({','.join(sorted(kinds))})")
     # bounded stand-in
     bounded = None
-    try:
-        bmod = importlib.import_module(f"bounded.{pid}")
-    except ModuleNotFoundError as e:
-        if f"bounded.{pid}" not in str(e):
-            raise
-        bmod = None
-    if bmod is not None and not only:
-        bounded = bmod.run(tier=tier, seed=seed)
-        info = getattr(bmod, "INFORMATIONAL", {})
+    bounded_error = None
+    if bproc is not None:
+        try:
+            kind, payload = bq.get(timeout=3600 * 3)
+        except Exception as e:  # noqa: BLE001
+            kind, payload = "error", f"bounded stand-in did not report: {type(e).__name__}: {e}"
+        bproc.join(30)
+        if kind == "ok":
+            bounded, info = payload
+        else:
+            bounded_error = payload
+    if bounded is not None:
         for chk in bounded.get("checks", []):
             if chk["name"] in info:
                 chk["informational"] = info[chk["name"]]
@@ -363,6 +390,8 @@ def check_property(pid, tier="quick", seed=0, manifest_level="proof", jobs=None,
         os.makedirs(os.path.join(ROOT, "evidence"), exist_ok=True)
         with open(os.path.join(ROOT, "evidence", f"{pid}.json"), "w", encoding="utf-8") as f:
             json.dump(ev, f, indent=1, default=repr)
+    if bounded_error:
+        checker_broken = (checker_broken + "; " if checker_broken else "") + "bounded stand-in crashed: " + str(bounded_error)[:2000]
     code = 1 if violations else (3 if checker_broken or any(r["status"] == "error" for r in results) else 0)
     if checker_broken:
         lines.append(f"CHECKER-BROKEN {checker_broken}")
